@@ -127,7 +127,8 @@ def run_c11(tier, out):
     sc += [{"c": "reset", "d": 20}] + stateless_calls(rnd)
     for op in malformed(rnd):
         sc += [{"c": "reset", "d": 20}, {"c": "set", "i": 1, "v": 4}, op, {"c": "get_root"}]     # (an API panic ends a history: one each)
-    sc += [{"c": "reset", "d": 20}] + protocol_calls(rnd, 3 if quick else 25)
+    sc += [{"c": "reset", "d": 20, "params": True}] + protocol_calls(rnd, 3 if quick else 25)      # constructor with resource buffers
+    sc += [{"c": "reset", "d": 20, "params": True}] + lifecycle(rnd)[1:8]
     sp = os.path.join(wd, "ffi.scen.ndjson")
     tp = os.path.join(wd, "ffi.trace.ndjson")
     write_ndjson(sp, sc)
